@@ -186,6 +186,7 @@ class Sim:
         self.unbound = []          # (ctx, node, name, function): process global assigned without `global`
         self.relem_uses = []       # (ctx, node): a value yielded by the result iterator handed to a call
         self.allframes = {}
+        self.shaped = []           # (oid, shape term, node): shaped views of shared buffers
         self.entry_params = set()
         self.loops = []
         self.overlaps = []         # (ctx, node, text): a read whose overlap with an earlier store could not be decided
@@ -948,6 +949,7 @@ class Sim:
                 sh = self.snap(args[0]) if len(args) == 1 else ("tuple",) + tuple(self.snap(a) for a in args)
                 if is_tag(sh, "list"):
                     sh = ("tuple",) + tuple(sh[1:])
+                self.shaped.append((recv[1], sh, node))
                 return ("ref", recv[1], sh, ())
             if name in MUT_METHODS:
                 self.store(recv, self._callterm(("attr", self.content(recv), name), args, kws), how="." + name)
